@@ -2,6 +2,7 @@ package rules
 
 import (
 	"fmt"
+	"os"
 	"sync"
 
 	"elyslint/core"
@@ -98,6 +99,11 @@ func Decide(prop, tier string, P *core.Program, nf *NFCache) (*core.Report, *cor
 	R2.Extra["as_written_view_reported"] = first
 	if len(R2.Violations()) == 0 {
 		return R2, P2
+	}
+	if os.Getenv("ELYSLINT_VIEW_DEBUG") != "" {
+		for _, o := range R2.Violations() {
+			fmt.Fprintln(os.Stderr, "NF-VIEW", o.Key(), "—", o.Detail)
+		}
 	}
 	// both views report: the verdict and the positions are those of the tree as written
 	return R, P
